@@ -475,6 +475,8 @@ impl Imp {
                 let mut s = state_reply(&self.cpu, 0);
                 match sl {
                     None => s.push_str(" -"),
+                    // the requested sleep must never exceed the slice duration (checked on the implementation itself)
+                    Some(v) if v > k.slice_duration => write!(s, " X{:08X}", v).unwrap(),
                     Some(v) => write!(s, " {:08X}", v).unwrap(),
                 }
                 write!(s, " {:08X}", k.slice_current_cycles).unwrap();
